@@ -312,7 +312,7 @@ class Interp:
         _ret, escs = self.call_env(func, args, 0)
         return escs
 
-    def call(self, func, posargs, kwargs, depth, bound=None):
+    def call(self, func, posargs, kwargs, depth, bound=None, closure=None):
         params = [p for p in func.params]
         env = {}
         pos = list(posargs)
@@ -341,6 +341,9 @@ class Interp:
         for p, d in zip(func.kwonly, func.node.args.kw_defaults):
             if p not in env:
                 env[p] = Const(const_value(d)) if d is not None else U()
+        # free variables of a nested function read the enclosing frame's bindings (client data flows through closures)
+        for k, v in (closure or {}).items():
+            env.setdefault(k, v)
         return self.call_env(func, env, depth)
 
     def call_env(self, func, env, depth):
@@ -1121,11 +1124,11 @@ class Frame:
         if isinstance(target, tuple) and target and target[0] == 'METHOD':
             return self.method_on_client(target[1], target[2], args, e, env)
         if isinstance(target, FuncRef) and target.func is not None:
-            return self.invoke(target.func, args, kwargs, e, bound=target.bound)
+            return self.invoke(target.func, args, kwargs, e, bound=target.bound, env=env)
         if isinstance(fn, ast.Name):
             v = env.get(fn.id)
             if isinstance(v, FuncRef) and v.func is not None:
-                return self.invoke(v.func, args, kwargs, e, bound=v.bound)
+                return self.invoke(v.func, args, kwargs, e, bound=v.bound, env=env)
         # builtins / known externals on client values
         r = self.builtin(short, name, args, kwargs, e, env)
         if r is not NOTHANDLED:
@@ -1154,7 +1157,7 @@ class Frame:
             if isinstance(fn, ast.Attribute):
                 bv = self.ev(fn.value, env)
                 bound = bv if isinstance(bv, Obj) else None
-            return self.invoke(callee, args, kwargs, e, bound=bound)
+            return self.invoke(callee, args, kwargs, e, bound=bound, env=env)
         if any(tainted(a) for a in args + list(kwargs.values())) and short not in SAFE_EXTERNAL:
             self.note_unmodelled(e, f'client data passed to unmodelled callee {name}')
         return U(short)
@@ -1163,7 +1166,25 @@ class Frame:
         k = f'{self.f.unit.relpath}:{getattr(node, "lineno", 0)} {text}'
         self.I.unmodelled[k] = self.I.unmodelled.get(k, 0) + 1
 
-    def invoke(self, callee, args, kwargs, node, bound=None):
+    def closure_for(self, callee, env):
+        if env is None or callee.parent is None:
+            return None
+        anc, g = set(), self.f
+        while g is not None:
+            anc.add(g.key)
+            g = g.parent
+        if callee.parent.key not in anc:
+            return None
+        bound_ = set(callee.params) | set(callee.kwonly) | {p.lstrip('*') for p in callee.params}
+        for x in callee.own_nodes():
+            if isinstance(x, ast.Name) and isinstance(x.ctx, (ast.Store, ast.Del)):
+                bound_.add(x.id)
+        free = {x.id for x in callee.own_nodes() if isinstance(x, ast.Name) and isinstance(x.ctx, ast.Load)} - bound_
+        for nested in callee.nested.values():
+            free |= {x.id for x in nested.own_nodes() if isinstance(x, ast.Name) and isinstance(x.ctx, ast.Load)} - bound_
+        return {k: env[k] for k in free if k in env and k != 'self'}
+
+    def invoke(self, callee, args, kwargs, node, bound=None, env=None):
         I = self.I
         b = boundary_for(callee)
         if b is not None:
@@ -1174,7 +1195,7 @@ class Frame:
             for r in raises:
                 self.raise_(r, node, f'{callee.qual} may raise {r}')
             return U(callee.qual)
-        r, escs = I.call(callee, args, kwargs, self.depth + 1, bound=bound)
+        r, escs = I.call(callee, args, kwargs, self.depth + 1, bound=bound, closure=self.closure_for(callee, env))
         for x in escs:
             self.throw(x)
         return r
